@@ -226,6 +226,32 @@ class Gen:
                         f'((_ zero_extend 4) {T(s)}))')
             if r.random() < 0.1:
                 return f'(= #b1 (bvcomp {T(s)} {T(s)}))'
+            k2 = r.random()
+            if k2 < 0.05:
+                # equalities over bvcomp / one-bit operators and constants
+                # (BVElimBVComp, BVTransformToBool, BVIteToBVComp)
+                c = r.choice(['#b1', '#b0', '(_ bv1 1)', '(_ bv0 1)'])
+                b1 = '(_ BitVec 1)'
+                t = r.choice([
+                    f'(bvcomp {T(s)} {T(s)})',
+                    f'({r.choice(["bvand", "bvor", "bvxor"])} {T(b1)} {T(b1)})',
+                    f'(ite (= {T(s)} {T(s)}) #b1 #b0)',
+                    f'(ite (= {T(s)} {T(s)}) (_ bv1 1) (_ bv0 1))',
+                ])
+                if r.random() < 0.3:
+                    return f'(= {c} {t} (bvcomp {T(s)} {T(s)}))'
+                return f'(= {c} {t})' if r.random() < 0.6 else f'(= {t} {c})'
+            if k2 < 0.1:
+                # zero extensions of different lengths on both sides
+                # (BVZeroExtendPredicate)
+                w = int(s.split()[2].rstrip(')'))
+                e1, e2 = r.choice([(2, 4), (4, 2), (3, 1), (1, 5)])
+                lo = max(1, w - abs(e1 - e2))
+                s_small = f'(_ BitVec {w})'
+                s_big = f'(_ BitVec {w + abs(e1 - e2)})'
+                a, b = (s_big, s_small) if e1 < e2 else (s_small, s_big)
+                return (f'({op} ((_ zero_extend {e1}) {T(a)}) '
+                        f'((_ zero_extend {e2}) {T(b)}))')
             return f'({op} {T(s)} {T(s)})'
         if key == 'string':
             op = r.choice(['str.contains', 'str.prefixof', '=', 'str.<'])
@@ -294,6 +320,30 @@ class Gen:
                 return f'((_ {op} {e}) {T(inner)})'
         if k < 0.45:
             return f'(ite (= {T(sort)} {T(sort)}) {self.const(sort)} {self.const(sort)})' if w > 1 else f'(ite {T("Bool")} #b1 #b0)'
+        if k < 0.49:
+            # operators applied to constants / nested extensions
+            # (BVExtractConstants, BVExtractZeroExtend, BVEvalExtend)
+            k3 = r.randrange(4)
+            if k3 == 0:
+                lo = r.randrange(4)
+                big = w + lo + r.randrange(3)
+                v = r.randrange(1 << min(big, 16))
+                c = (f'(_ bv{v} {big})' if r.random() < 0.5 else '#b' +
+                     format(v, 'b').zfill(big)[-big:])
+                return f'((_ extract {w + lo - 1} {lo}) {c})'
+            if k3 == 1:
+                e = r.choice([1, 2, 4])
+                inner = max(1, w + r.choice([-1, 0, 1, 2]) - e + r.randrange(3))
+                lo = r.randrange(inner + e - w + 1) if inner + e >= w else 0
+                return (f'((_ extract {w + lo - 1} {lo}) '
+                        f'((_ zero_extend {e}) {T(f"(_ BitVec {inner})")}))')
+            if w >= 2:
+                e = r.randrange(1, w)
+                v = r.randrange(1 << min(w - e, 16))
+                c = (f'(_ bv{v} {w - e})' if r.random() < 0.5 else '#b' +
+                     format(v, 'b').zfill(w - e)[-(w - e):])
+                op = r.choice(['zero_extend', 'sign_extend'])
+                return f'((_ {op} {e}) {c})'
         if k < 0.5:
             return f'(bvnand {T(sort)} {T(sort)})'
         op = r.choice([
@@ -448,7 +498,7 @@ def damage(rng, text, kind=None):
     kind = kind or rng.choice([
         'del_tok', 'del_tok', 'del_sub', 'dup_tok', 'stray_close',
         'missing_close', 'bare_top', 'top_string', 'swap', 'empty_list',
-        'del_many', 'odd_index'
+        'del_many', 'odd_index', 'deep_nest'
     ])
     n = len(toks)
     if kind == 'del_tok':
@@ -523,6 +573,15 @@ def damage(rng, text, kind=None):
             i = rng.choice(idx if rng.random() < 0.5 else idx[:1])
             toks[i:i + 1] = rng.choice([['n'], ['(', 'w', ')'], ['1.5'],
                                         ['#x8'], ['"8"'], ['-1'], ['(', ')']])
+    elif kind == 'deep_nest':
+        # one token wrapped more deeply than the interpreter's recursion limit
+        # (anywhere: a declared name, a sort, a term)
+        idx = [i for i, t in enumerate(toks) if t not in '()']
+        if idx:
+            i = rng.choice(idx)
+            d = rng.choice([1020, 1100, 1300])
+            op = rng.choice([['f'], ['not'], [], ['+', '1'], ['_']])
+            toks[i:i + 1] = (['('] + op) * d + [toks[i]] + [')'] * d
     return render_tokens(toks), kind
 
 
